@@ -3,6 +3,18 @@
 import json, os, subprocess
 
 CLAIMED = {
+ "C02": ("typestate dataflow over SSA with inlining (item in hand: received -> forwarded exactly once), value-flow and who-may-access rules",
+         "Safety half of exactly-once/tagged/FIFO: single mover proven by context analysis, exactly one successful output send per received item on every CFG path, tag identity by SSA value equality, no buffering of items, handlers call Handle then release once each. Liveness (eventual delivery) is not decided.",
+         "DESIGN.md section 5 C02"),
+ "C07": ("dominating-guard and path rules on SSA CFG: returns of the scheduling loop, drained marking, for-all helpers, deferred wait loop, signal placement, error origin",
+         "Termination safety: signals can only follow 'all inputs observed drained and nothing in flight' on every path; err carries only divider-check errors. 'Promptly' and eventual termination are not decided.",
+         "DESIGN.md section 5 C07"),
+ "C16": ("blocking-operation inventory per goroutine, SCC decomposition of every CFG cycle with stop-exit requirement, defer run-order rules",
+         "Every wait reachable from a v1 goroutine watches every stop signal of that goroutine or is an enumerated bounded idiom; every loop has a bounded trip count or leaves on stop; defers complete the breakers last. Found the waitCalcTactic hang (fixed) and the Simple graceful/stop finding (known). No real-time bound is derived.",
+         "DESIGN.md section 5 C16"),
+ "C19": ("go-statement inventory, signal placement and defer run-order rules, child-goroutine wake-up and join rules, cycle-exit check",
+         "Every goroutine entry signals only in its last deferred calls, children are joined or bound to a channel closed at termination, no cycle lacks an exit. Relies on the user contract for releases and reads.",
+         "DESIGN.md section 5 C19"),
  "C20": ("confinement analysis: per-field access contexts (ctor/goroutine/API) from SSA + call graph; who-may-write rules",
          "Every field of the 8 discipline structs is proven immutable-after-spawn or confined to one scheduler goroutine; globals and user maps are never written. A static proof of race freedom for library state, not a dynamic race detector; user callbacks and third-party breaker are outside it.",
          "DESIGN.md section 5 C20"),
